@@ -707,6 +707,11 @@ def check(run):
     if usable:
         for j in range(ncases // 8):
             cases.append((gen if j % 2 else genf).clone_open())
+    # the same file (and another one) opened twice in a row: what the first file left must not
+    # show in the second listing (CPU numbering, cpu.number)
+    for i in usable:
+        for j in usable:
+            cases.append(["F", "O:%d" % i, "O:%d" % j, "G:0:%s" % hx("cpu.number"), "G:0:%s" % hx("addrxlat.default.phys_base")])
     # sets whose post-set hook fails, on new contexts
     for _ in range(60 if quick else 1500):
         cases.append(genf.hookfail())
